@@ -43,6 +43,7 @@ func HarnessC17Response() {
 	vfsWriteFile("templates/calc.tw", c17Page)
 	vfsWriteFile("templates/layouts/lay.tw", "HEADMARK [@reserve(\"r\")] TAILMARK")
 	vfsWriteFile("templates/ins.tw", "@use(\"~lay\")@insert(\"r\", o.missing)")
+	vfsWriteFile("templates/lst.tw", "HEADMARK {{ [d, nope].join(\"/\") }} TAILMARK")
 	vfsWriteFile("templates/pct.tw", "HEADMARK {{ 7 % \"3\" }} TAILMARK") // the error message holds a '%' 
 	// the custom error page has a variable of its own; the failed page's data uses the same name with another type
 	vfsWriteFile("templates/err.tw", "{{ t = \"Custom\" }}{{ t }} oops")
@@ -71,7 +72,9 @@ func HarnessC17Response() {
 	var name string
 	var data map[string]any
 	d := string([]byte{vByte("d")})
-	switch vChoice("page", 6) {
+	switch vChoice("page", 7) {
+	case 6: // the fault sits in a later element of an array literal
+		name, data = "lst", map[string]any{"d": d}
 	case 5: // the value of an expression-form insert fails at run time
 		name, data = "ins", map[string]any{"o": map[string]any{"k": 1}}
 	case 4:
@@ -86,7 +89,7 @@ func HarnessC17Response() {
 		name, data = "absent", nil
 	}
 	want, wantErr := tpl.String(name, data)
-	if name == "ins" || name == "pct" || name == "absent" {
+	if name == "ins" || name == "pct" || name == "absent" || name == "lst" {
 		vAssert(wantErr != nil, "page-that-fails-by-construction-fails") // not derived from the code under test
 	}
 	w := &vWriter{}
